@@ -8,9 +8,10 @@ package types
 // The list of fields comes from the property statement, not from the code.
 
 //verif:property C03
-//verif:bound every field of the list below (veto control program and state data: thorough tier) on transactions of 1 input (spend, issuance, veto or coinbase) x 1 output (original or vote; retirement when the program starts with OP_FAIL); thorough tier: one field per entry type also on 2 inputs x 2 outputs where the input / output under test is placed first or second next to an arbitrary spend input / original output; order: swap of two inputs (2x1) or two outputs (1x2); every integer field is an arbitrary 64-bit value, hashes/asset ids arbitrary 256-bit values
+//verif:bound every field of the list below (veto control program and state data: smallest sizes in the quick tier -- program 0..1 bytes, state [] vs [x] and [x] vs [y] --, the full sizes in the thorough tier) on transactions of 1 input (spend, issuance, veto or coinbase) x 1 output (original or vote; retirement when the program starts with OP_FAIL); thorough tier: one field per entry type also on 2 inputs x 2 outputs where the input / output under test is placed first or second next to an arbitrary spend input / original output; order: swap of two inputs (2x1) or two outputs (1x2); every integer field is an arbitrary 64-bit value, hashes/asset ids arbitrary 256-bit values
 //verif:bound the field under test: byte strings of 0..2 arbitrary bytes, state data / argument lists that are empty, one item of 0..2 bytes or two items of 1 byte; all other byte strings have a fixed length of 1 byte (2 for programs) with arbitrary content, state data 1 item
 //verif:bound block headers: all five hashed fields arbitrary; witness 0..2 bytes, 0..1 sup links with signatures of 0..1 bytes; transaction lists of 1..4 arbitrary ids
+//verif:bound cross-type pairs: output 0 original vs vote (same asset/amount/program/VM version) and input spend vs veto (same prevout fields), vote key of exactly 0, 1 or 2 arbitrary bytes, the two state-data lists independent, each 0..2 items of 0..1 bytes (quick) / 0..2 bytes (thorough; inputs only with a 1-byte key); the program of the output does not start with OP_FAIL
 //verif:assume SHA3-256 is an uninterpreted function without collisions
 //verif:assume a transaction has at least one output (validation rejects a version-1 header without results: ErrEmptyResults); without outputs the ID does not depend on the inputs at all
 //verif:outside CommitmentSuffix / SpendCommitmentSuffix bytes and inputs of unknown asset versions (not mapped to entries); shapes with more than 2 inputs or outputs
@@ -18,7 +19,10 @@ package types
 //verif:obligation fn=VerifC03TxField args=0,0,10;0,0,11;0,0,12;0,0,13;0,0,14;0,0,15;0,0,16;0,0,60;0,0,61 maps=lazy timeout=600000 secs=3600 validate=10
 //verif:obligation fn=VerifC03TxField args=1,0,20;1,0,21;1,0,22;1,0,23;1,0,24;1,0,60;1,0,61 maps=lazy timeout=600000 secs=3600
 //verif:obligation fn=VerifC03TxField args=2,0,10;2,0,11;2,0,12;2,0,13;2,0,15;2,0,17;2,0,60;2,0,61 maps=lazy timeout=600000 secs=3600
+//verif:obligation fn=VerifC03TxFieldSmall args=2,0,14;2,0,16 maps=lazy timeout=600000 secs=3600 validate=10
 //verif:obligation fn=VerifC03TxField args=2,0,14;2,0,16 tier=thorough maps=lazy timeout=600000 secs=6000
+//verif:obligation fn=VerifC03CrossType args=0,0,0;0,1,0;0,2,0;1,0,0;1,1,0;1,2,0 maps=lazy timeout=600000 secs=3600 validate=10
+//verif:obligation fn=VerifC03CrossType args=0,0,1;0,1,1;0,2,1;1,1,1 tier=thorough maps=lazy timeout=600000 secs=6000
 //verif:obligation fn=VerifC03TxField args=3,0,30;3,0,61 maps=lazy timeout=600000 secs=3600
 //verif:obligation fn=VerifC03TxField args=0,0,40;0,0,41;0,0,42;0,0,43;0,0,44 maps=lazy timeout=600000 secs=3600
 //verif:obligation fn=VerifC03TxField args=0,1,40;0,1,41;0,1,42;0,1,43;0,1,44;0,1,45 maps=lazy timeout=600000 secs=3600
@@ -236,7 +240,19 @@ func verifC03TwoBytes(name string, max int) ([]byte, []byte) {
 }
 
 // two arbitrary lists: empty, one item of 0..2 bytes, or two items of 1 byte each; differ: they are assumed to differ
-func verifC03TwoLists(name string, differ bool) ([][]byte, [][]byte) {
+func verifC03TwoLists(name string, differ bool, max int) ([][]byte, [][]byte) {
+	if max == 1 {
+		// smallest distinguishing cases: [] vs [x], and [x] vs [y] with x != y
+		l2 := [][]byte{verifBytesN(name+"'", 1)}
+		if verifChoice(name+"Len", 2) == 0 {
+			return nil, l2
+		}
+		l1 := [][]byte{verifBytesN(name, 1)}
+		if differ {
+			verifAssume(!bytes.Equal(l1[0], l2[0]))
+		}
+		return l1, l2
+	}
 	n1 := verifChoice(name+"Len", 3)
 	n2 := verifChoice(name+"Len'", 3)
 	var l1, l2 [][]byte
@@ -278,6 +294,11 @@ func verifC03Unspendable(p []byte) bool {
 // outKind) or of the transaction itself.
 func VerifC03TxField(inKind int, outKind int, field int) {
 	verifC03TxField(inKind, outKind, field, 2, 0, 1)
+}
+
+// the smallest distinguishing sizes: byte string under test 0..1 bytes, lists [] vs [x] and [x] vs [y]
+func VerifC03TxFieldSmall(inKind int, outKind int, field int) {
+	verifC03TxField(inKind, outKind, field, 1, 0, 1)
 }
 
 // the same with 2 inputs x 2 outputs: the input / output under test stands
@@ -323,7 +344,7 @@ func verifC03TxField(inKind int, outKind int, field int, max int, free int, widt
 	case verifC03FVMVersion, verifC03FIssVMVersion:
 		in1.vmVersion, in2.vmVersion = verifC03TwoU64("vmVersion")
 	case verifC03FStateData:
-		in1.stateData, in2.stateData = verifC03TwoLists("state", true)
+		in1.stateData, in2.stateData = verifC03TwoLists("state", true, max)
 	case verifC03FVote:
 		in1.vote, in2.vote = verifC03TwoBytes("vote", max)
 	case verifC03FNonce:
@@ -342,12 +363,12 @@ func verifC03TxField(inKind int, outKind int, field int, max int, free int, widt
 	case verifC03FOutVMVersion:
 		out1.vmVersion, out2.vmVersion = verifC03TwoU64("outVMVersion")
 	case verifC03FOutStateData:
-		out1.stateData, out2.stateData = verifC03TwoLists("outState", true)
+		out1.stateData, out2.stateData = verifC03TwoLists("outState", true, max)
 	case verifC03FOutVote:
 		out1.vote, out2.vote = verifC03TwoBytes("outVote", max)
 
 	case verifC03FArguments:
-		in1.args, in2.args = verifC03TwoLists("arg", false)
+		in1.args, in2.args = verifC03TwoLists("arg", false, max)
 		witness = true
 	case verifC03FWitnessSuffix:
 		in1.witSuffix = verifBytes("witnessSuffix", max)
@@ -540,4 +561,59 @@ func VerifC03BlockTxID(n int) {
 	verifObserveU64("hash2", id2.V0)
 	verifAssert(id1 != id2, "tx-id-changes-block-hash")
 	verifReach("VerifC03BlockTxID:end")
+}
+
+// VerifC03CrossType: two transactions identical except for the TYPE of one
+// entry. side 0: output 0 is an original output in tx1 and a vote output in
+// tx2 (same asset, amount, program, VM version); side 1: the input is a spend
+// in tx1 and a veto in tx2 (same prevout fields). The vote key (klen arbitrary
+// bytes) and the two state-data lists are chosen independently, so the check
+// covers every crafted pair whose hashed bodies would coincide if the two entry
+// types shared a hash domain (e.g. original state [[00]] against vote key [01]
+// with empty state: both bodies end in 01 01 00).
+// wide 0: both state lists 0..2 items of 0..1 bytes; wide 1: 0..2 items of 0..2 bytes.
+func VerifC03CrossType(side int, klen int, wide int) {
+	n1max, n2max, ilen := 3, 3, 1
+	if wide != 0 {
+		ilen = 2
+	}
+	var s1, s2 [][]byte
+	n1 := verifChoice("stateLen", n1max)
+	n2 := verifChoice("stateLen'", n2max)
+	for i := 0; i < n1; i++ {
+		s1 = append(s1, verifBytes("state", ilen))
+	}
+	for i := 0; i < n2; i++ {
+		s2 = append(s2, verifBytes("state'", ilen))
+	}
+	key := verifBytesN("voteKey", klen)
+
+	in := verifC03NewIn(verifC03Spend, 0)
+	out := verifC03NewOut(0, 0)
+	// an output starting with OP_FAIL is a retirement whatever its type (KF-C03-RETIREMENT): not the subject here
+	verifAssume(out.program[0] != 0x6a)
+	in2, out2 := in, out
+	if side == 0 {
+		out.stateData = s1
+		out2.kind, out2.vote, out2.stateData = 1, key, s2
+	} else {
+		in.stateData = s1
+		in2.kind, in2.vote, in2.stateData = verifC03Veto, key, s2
+	}
+	version, timeRange := verifU64("version"), verifU64("timeRange")
+	tx1 := MapTx(&TxData{Version: version, TimeRange: timeRange, Inputs: []*TxInput{in.txInput()}, Outputs: []*TxOutput{out.txOutput()}})
+	tx2 := MapTx(&TxData{Version: version, TimeRange: timeRange, Inputs: []*TxInput{in2.txInput()}, Outputs: []*TxOutput{out2.txOutput()}})
+	verifObserveU64("id1", tx1.ID.V0)
+	verifObserveU64("id2", tx2.ID.V0)
+	if side == 0 {
+		verifObserveBool("sameOutputID", *tx1.ResultIds[0] == *tx2.ResultIds[0])
+		verifAssert(tx1.ID != tx2.ID, "output-type-changes-id")
+		verifAssert(*tx1.ResultIds[0] != *tx2.ResultIds[0], "output-type-changes-output-id")
+		verifReach("VerifC03CrossType:outputs")
+	} else {
+		verifObserveBool("sameSpentOutputID", tx1.SpentOutputIDs[0] == tx2.SpentOutputIDs[0])
+		verifAssert(tx1.SpentOutputIDs[0] != tx2.SpentOutputIDs[0], "input-type-changes-spent-output-id")
+		verifAssert(tx1.ID != tx2.ID, "input-type-changes-id")
+		verifReach("VerifC03CrossType:inputs")
+	}
 }
